@@ -64,6 +64,9 @@ type Cfg struct {
 	Flags      Flags
 	Premium    *premium.Setting
 	LimitPPM   int64
+	// ScriptedB: node B is not driven (an adversary scripted by the scenario
+	// plays the peer; messages to B just pile up in the queue for it to read).
+	ScriptedB bool
 	// Hooks
 	ExtraEnabled func(x *Exec) []mc.Event
 	ExtraApply   func(x *Exec, e mc.Event) bool
@@ -235,6 +238,16 @@ func idOf(w string) string {
 	return IDB
 }
 
+// Queue returns the pending messages for a node (oldest first).
+func (x *Exec) Queue(id string) []Msg {
+	x.netMu.Lock()
+	defer x.netMu.Unlock()
+	return append([]Msg{}, x.Net[id]...)
+}
+
+// DeliverTo hands a crafted message to a node.
+func (x *Exec) DeliverTo(m Msg) { x.deliver(m) }
+
 // SwapOfA returns the persisted record of A's first swap (nil if none).
 func (x *Exec) SwapOf(n *node.Node) *swap.SwapStateMachine {
 	s := n.Swaps()
@@ -267,6 +280,9 @@ func (x *Exec) Enabled() []mc.Event {
 		q := x.Net[r]
 		if len(q) == 0 {
 			continue
+		}
+		if r == IDB && x.Cfg.ScriptedB {
+			continue // the peer is played by the scenario's adversary, not by a real node
 		}
 		if !(r == IDA && x.A.Life.Dead()) {
 			out = append(out, ev("deliver", who(r), 0, 0))
